@@ -27,7 +27,7 @@ def histories(draw, tier):
         spec = draw(gens.generated_graphs(2, 4, {2: 5, 3: 3, 4: 1}))
         graph = {"k": spec["k"], "rows": spec["rows"]}
     elif source == "arcs":
-        graph = draw(gens.arc_subsets(1, 3, {1: 1, 2: 4, 3: 2}))
+        graph = draw(gens.arc_subsets(1, 3, {1: 2, 2: 4, 3: 2}))
     else:
         k = draw(st.sampled_from([1, 2, 2, 3]))
         graph = {"k": k, "rows": [15] * 4 ** k}
@@ -39,7 +39,9 @@ def histories(draw, tier):
     else:
         pair = {"both": (True, True), "ins_only": (True, False), "del_only": (False, True), "none": (False, False)}
         flags = [pair[mode]] * steps
-    return {"graph": graph, "flags": [list(f) for f in flags]}
+    return {"graph": graph, "flags": [list(f) for f in flags],
+            "verbose": draw(st.sampled_from([False, False, False, True])),
+            "layout": draw(st.sampled_from([None, None, None, "F", "strided", "offset"]))}
 
 
 def normal_map(latter_map):
@@ -53,10 +55,11 @@ def evaluate(case):
     k, rows = graph["k"], graph["rows"]
     n = 4 ** k
     table = o.succ_table(k)
-    accessor = gens.accessor_of(graph)
+    accessor = gens.accessor_of(graph, case.get("layout"))
     latter_map = dsw.accessor_to_latter_map(accessor)
     model = set(o.arcs(rows, k))
-    labels = ["k=%d" % k]
+    labels = ["k=%d" % k] + (["verbose"] if case.get("verbose") else []) + (
+        ["layout:" + case["layout"]] if case.get("layout") else [])
     removals, emptied = 0, False
     for step, (ins, dele) in enumerate(case["flags"]):
         before_acc = accessor.copy()
@@ -75,8 +78,8 @@ def evaluate(case):
                     if scores[v, j] < 0:
                         return bad("negative intersection score at [%d,%d]; %s" % (v, j, where), labels)
         result = lib_call(dsw.remove_nasty_arc, _twice=False, accessor=accessor, latter_map=latter_map,
-                          iteration=step,
-                          has_insertion=ins, has_deletion=dele)
+                          iteration=step, has_insertion=ins, has_deletion=dele,
+                          verbose=bool(case.get("verbose")))
         if isinstance(result, Raised):
             labels.append("ended_by:" + result.name)
             break
@@ -96,7 +99,7 @@ def evaluate(case):
         if changed != [(former, column)] or int(new_acc[former, column]) != -1:
             return bad("accessor entries changed by the call: %r, expected exactly [(%d, %d)] set to -1; %s"
                        % (changed[:6], former, column, where), labels)
-        if not numpy.array_equal(numpy.asarray(new_acc), accessor):
+        if not numpy.array_equal(numpy.asarray(new_acc), numpy.asarray(accessor)):
             return bad("the returned accessor differs from the accessor passed in (arc removal is in place); %s"
                        % where, labels)
         if normal_map(new_map) != normal_map(latter_map):
@@ -132,7 +135,8 @@ def evaluate(case):
 
 SUBCHECKS = [
     SubCheck("removal_histories", evaluate, strategy=histories, examples=(700, 8000), shards=(16, 16),
-             floors={"vertex_lost_last_arc": 60, "asymmetric_flags": 150, "removals:10+": 60}, rule=RULE,
+             floors={"vertex_lost_last_arc": 60, "asymmetric_flags": 150, "removals:10+": 60, "verbose": 80,
+                     "layout:F": 20, "layout:strided": 20}, rule=RULE,
              timeout=300.0),
 ]
 
